@@ -15,6 +15,7 @@ import (
 	"encoding/json"
 	"fmt"
 	"os"
+	"runtime/pprof"
 	"strings"
 	"time"
 
@@ -83,8 +84,13 @@ func runChurn(f *vevid.Flags, rep *vevid.Report) {
 		}
 	}
 	rep.Bounds["searches"] = cfgDesc
+	only := os.Getenv("C18_ONLY") // debugging aid: run a single search
 	for i, it := range items {
-		if !f.Mine(int64(i)) {
+		if only != "" {
+			if it.cfg.Name != only {
+				continue
+			}
+		} else if !f.Mine(int64(i)) {
 			continue
 		}
 		runSearch(f, rep, it)
@@ -188,6 +194,12 @@ func main() {
 		os.Stdout = devnull
 	}
 	initSeeds()
+	if pf := os.Getenv("C18_CPUPROFILE"); pf != "" {
+		if fh, err := os.Create(pf); err == nil {
+			_ = pprof.StartCPUProfile(fh)
+			defer pprof.StopCPUProfile()
+		}
+	}
 
 	if f.Replay != "" {
 		var raw json.RawMessage
